@@ -213,6 +213,8 @@ def if_range_values(res200):
     return [
         (None, True), (et, True), (lm, True), ("W/" + et, False), ('"0000"', False), ("Tue, 14 Nov 2000 22:13:20 GMT", False), ("", True),
         ("Fri, 01 Jan 2038 00:00:00 GMT", False), ("Tue, 14 Nov 2023 22:13:21 GMT", False), ("Tue, 14 Nov 2023 22:13:19 GMT", False),
+        # pieces of the validators: a validator is matched whole or not at all
+        (et.strip('"'), False), (et[:-1], False), (et[1:], False), (et[:5], False), ('"', False), ('""', False), ("GMT", False), (lm[:-4], False), (lm[5:], False), (" ", False), (",", False),
     ]
 
 
@@ -603,7 +605,7 @@ def run_shard_fresh(desc, tier):
 
 
 def finish(merged, tier):
-    return {"bounds": {"sizes": SIZES[tier], "chunk_sizes": [c or "default" for c in CHUNKS], "max_specs": 2 if tier == "quick" else 3, "if_range_forms": 10, "malformed_headers": MALFORMED},
+    return {"bounds": {"sizes": SIZES[tier], "chunk_sizes": [c or "default" for c in CHUNKS], "max_specs": 2 if tier == "quick" else 3, "if_range_forms": 21, "malformed_headers": MALFORMED},
             "distinct_outcomes": len(merged.sets.get("outcomes", ()))}
 
 
